@@ -52,9 +52,10 @@ class Ctx:
         self.tlc_runs = 0
         self.notes = []
         self.replay = None
+        self.force_quick = False     # thorough tier of the costliest checks: the sizes of the quick tier under several seeds
 
     def quick(self):
-        return self.tier == "quick"
+        return self.tier == "quick" or self.force_quick
 
     def path(self, name):
         return os.path.join(self.work, name)
@@ -290,7 +291,8 @@ def finish(ctx, level, coverage, violations, assumptions):
     coverage.setdefault("tlc_runs", ctx.tlc_runs)
     coverage["known_findings_hit"] = sorted(listed.keys())
     ev = {
-        "property_id": ctx.prop, "tier": ctx.tier, "seed": ctx.seed, "level": level, "coverage": coverage,
+        "property_id": ctx.prop, "tier": ctx.tier, "seed": ctx.seed, "level": level,
+        "coverage": dict(coverage, thorough_as_seeds="this thorough run uses the sizes of the quick tier; the thorough command runs it under seeds s, s+1, s+2") if ctx.force_quick else coverage,
         "assumptions": assumptions + ctx.notes, "wall_s": round(time.time() - ctx.t0, 1),
         "violations": len(seen),
     }
